@@ -9,6 +9,9 @@ def check(ctx, replay=None):
     plan = [
         dict(scope="groups" if th else "groups2", mc=["DecisionOK", "PathOK"], mc_maxskips=[255, 3], kw=dict(NSys=3), stride=2 if th else 1, concs=4, expand=0 if th else 6),
         dict(scope="many", mc=["DecisionOK", "PathOK"], mc_maxskips=[255, 3] if th else [3], stride=2 if th else 12, concs=3, expand=0 if th else 6),
+        # both encodings of the architecture jump at the real limit (jumpN 251..260), with and without conditions
+        dict(scope="long1", mc=["DecisionOK", "PathOK"], mc_maxskips=[255], kw=dict(W=8, X32Bit=512, NSys=300), stride=1, concs=4 if th else 2, expand=0 if th else 4),
+        dict(scope="longconds", mc=["PathOK"] if th else None, mc_maxskips=[255], kw=dict(W=8, X32Bit=512, NSys=300), stride=1 if th else 3, concs=2, expand=2),
         dict(scope="rich", mc=["PathOK"], mc_maxskips=[3] if th else [], stride=4 if th else 12, concs=2, expand=4),
     ]
     polfam.run_family(ctx, plan, mine={"foreign", "x32"}, decision_owner=None)
